@@ -1,6 +1,7 @@
 """Fixture class hierarchy and callables for the value and type grammars (importable by name)."""
 import collections
 import collections.abc
+from functools import partial  # noqa: F401 - callable objects that are not functions (value grammar)
 
 
 class A:
@@ -166,6 +167,13 @@ class MyTuple(tuple):
 
 
 NT = collections.namedtuple("NT", ["x", "y"])
+
+
+class Handler:
+    """an instance with __call__: callable, but its type is the class, not Callable"""
+
+    def __call__(self, *a):
+        return a
 
 
 def func(a, b=1):
